@@ -352,6 +352,94 @@ def run_cable(case):
     return {"nontrivial": bool(case["wl_a"]) and bool(case["wl_b"]) and d1 != d2, "classes": ["both directions" if case["wl_a"] and case["wl_b"] else "one direction"]}
 
 
+def run_reconf(case):
+    """the wire's parameters are plain public attributes (the library configures everything by attribute assignment - `out`,
+    Cable's two wires); they are reassigned only at instants at which the wire is empty and idle, so which parameters apply
+    to which packet is unambiguous: those in force while the packet is in the wire"""
+    lab = Lab(clause="C10.no_exception")
+    env = lab.env
+    phases = case["phases"]            # [[gap, loss_rate, delay, [[offset, size], ...]], ...]
+    old = wire_mod.random
+    wire_mod.random = ConstRandom(0.5)
+    try:
+        first = phases[0]
+        if case["ctor"]:
+            wire = Wire(env, (lambda d=first[2]: d), loss_rate=first[1])
+        else:
+            wire = Wire(env, lambda: 1000, loss_rate=1)
+            wire.delay_dist = (lambda d=first[2]: d)
+            wire.loss_rate = first[1]
+        out = lab.tap("out")
+        wire.out = out
+        entry = lab.tap("in", wire)
+        t = F(0)
+        wl, phase_of = [], []
+        for i, (gap, p, d, arr) in enumerate(phases):
+            if i:
+                # the previous phase's packets are all delivered by t + its delay; reassign strictly after that
+                t += F(phases[i - 1][2]) + F(gap)
+
+                def reassign(_e, p=p, d=d):
+                    wire.loss_rate = p
+                    wire.delay_dist = (lambda d=d: d)
+                ev = env.timeout(float(t) - env.now)
+                ev.callbacks.append(reassign)
+                t += F(case["after"])
+            for off, size in arr:
+                wl.append([float(t + F(off)), 0, size, None, 0])
+                phase_of.append(i)
+            t += max([F(o) for o, _ in arr], default=F(0))
+        pkts = lab.inject(entry, wl)
+        lab.run()
+    finally:
+        wire_mod.random = old
+    by_obj = {id(r.pkt): r for r in out.recs}
+    lost_phases = delivered_phases = 0
+    for i, (gap, p, d, arr) in enumerate(phases):
+        mine = [r for r, ph in zip(entry.recs, phase_of) if ph == i] if len(entry.recs) == len(phase_of) else None
+        if mine is None:
+            raise HarnessError("entry tap lost arrivals")
+        lose = bool(p) and 0.5 < p
+        if mine:
+            if lose:
+                lost_phases += 1
+            else:
+                delivered_phases += 1
+        for ri in mine:
+            ro = by_obj.get(id(ri.pkt))
+            if lose and ro is not None:
+                raise Violation("C10.loss", f"phase {i}: loss_rate={p} (draw 0.5) when packet {ri.snap[0]} entered at {ri.now}, yet it "
+                                            f"was delivered at {ro.now}", "C10.loss/reconfigured")
+            if not lose:
+                if ro is None:
+                    raise Violation("C10.delivered_once", f"phase {i}: loss_rate={p} (draw 0.5) when packet {ri.snap[0]} entered at "
+                                                          f"{ri.now}, never delivered", "C10.delivered_once/reconfigured")
+                check_same(ri, ro)
+                if F(ro.now) != F(ri.now) + F(d):
+                    raise Violation("C10.delivery_instant", f"phase {i}: delay {d} in force when packet {ri.snap[0]} entered at {ri.now}; "
+                                                            f"delivered at {ro.now}", "C10.delivery_instant/reconfigured")
+    if len(out.recs) != sum(1 for r, ph in zip(entry.recs, phase_of) if not (phases[ph][1] and phases[ph][1] > 0.5)):
+        raise Violation("C10.delivered_once", "more deliveries than packets that had to be delivered", "C10.delivered_once/reconf-more")
+    classes = set()
+    if len(phases) >= 2:
+        classes.add("parameters reassigned while idle")
+        if len({ph[1] for ph in phases}) >= 2 and lost_phases and delivered_phases:
+            classes.add("loss rate changed between phases")
+        if len({ph[2] for ph in phases}) >= 2:
+            classes.add("delay changed between phases")
+    if not case["ctor"]:
+        classes.add("parameters assigned after construction, before the run")
+    return {"nontrivial": len(phases) >= 2 and lost_phases + delivered_phases >= 2, "classes": sorted(classes)}
+
+
+def reconf_strategy(tier):
+    arr = st.lists(st.tuples(st.sampled_from([0, 0, 1 / 8, 0.5, 1, 3]), st.sampled_from([64, 512, 1500])).map(list), min_size=0, max_size=5)
+    phase = st.tuples(st.sampled_from([1 / 8, 1, 5]), st.sampled_from([None, 0, 1, 0.25, 0.75, None, 1]),
+                      st.sampled_from([0, 1 / 8, 1, 2, 8]), arr).map(list)
+    return st.fixed_dictionaries({"phases": st.lists(phase, min_size=1, max_size=5), "ctor": st.booleans(),
+                                  "after": st.sampled_from([1 / 8, 1])})
+
+
 def noloss_strategy(tier):
     big = tier == "thorough"
 
@@ -394,7 +482,9 @@ PROP = Property(
           "u<p all lost, u>p none; seeded draws: number lost inside the 1e-9 two-sided binomial band; p in {None,0} none, p=1 all. "
           "(loss_varying) seeded loss with varying scripted delays, no draw-to-packet mapping assumed: each delivered packet "
           "leaves within [a + min, max(a + max, previous delivery)] over the draws made between its entry and its delivery, so "
-          "a discarded packet can delay nobody. (cable) two endpoints, per-direction delays: packets reach only the other end at exactly a+d of their direction."),
+          "a discarded packet can delay nobody. (reconfigure) loss_rate / delay_dist attributes assigned after construction and "
+          "reassigned at instants at which the wire is empty and idle; every packet obeys the parameters in force while it is in "
+          "the wire (constant draw 0.5, constant delay per phase: exact oracle). (cable) two endpoints, per-direction delays: packets reach only the other end at exactly a+d of their direction."),
     facets=[
         Facet("noloss", noloss_strategy, run_noloss, quick=1200, thorough=8000,
               essential=["held back by predecessor (clamp)", "own delay decides", "zero delay"]),
@@ -404,8 +494,13 @@ PROP = Property(
               essential=["some lost, some delivered", "held back by predecessor (clamp)"]),
         Facet("shared_objects", shared_strategy, run_shared, quick=500, thorough=3000,
               essential=["held back by predecessor (clamp)"]),
+        Facet("reconfigure", reconf_strategy, run_reconf, quick=500, thorough=3000,
+              essential=["loss rate changed between phases", "delay changed between phases",
+                         "parameters assigned after construction, before the run"]),
         Facet("cable", cable_strategy, run_cable, quick=300, thorough=1500, essential=["both directions"]),
     ],
     assumptions=["frequency clause is statistical (binomial band at 1e-9); independence of draws is not testable beyond that",
+                 "a Wire's loss_rate and delay_dist are public attributes; reassigning them while the wire is empty takes effect for "
+                 "the packets that enter afterwards (the statement speaks of the wire's loss rate, not of its constructor argument)",
                  "onl.netdev.wire.random is replaced harness-side by a scripted/seeded generator"],
 )
